@@ -323,7 +323,21 @@ PreMatch(p, n, inp, out) ==        \* n: how many non-Compute transforms of p ha
   IF inp = <<>> THEN (IF out = <<>> THEN "ok" ELSE "extra-transform")
   ELSE IF out = <<>> THEN "transform-lost"
   ELSE LET a == Head(inp) b == Head(out) IN
-    IF b.k \in {"Except", "Intersect"} THEN "ok"               \* set-operation recognition: not modelled, the rest is not judged
+    \* set-operation recognition (preprocess::except / intersect): a left join on all columns + a filter "the right side is
+    \* null" becomes EXCEPT, an inner join on all columns whose right side is not selected becomes INTERSECT; a
+    \* de-duplication next to it makes it DISTINCT and is absorbed
+    IF IsGroupTake(a) /\ b.k \in {"Except", "Intersect"} /\ b.sorted THEN PreMatch(p, n + 1, Tail(inp), out)
+    ELSE IF b.k = "Except" THEN
+         IF ~(a.k = "Join" /\ Len(inp) >= 2 /\ inp[2].k = "Filter") THEN "except-shape"
+         \* the filter may only say that the right side is absent: any other condition would be dropped with it
+         ELSE IF ~(Set(inp[2].refs) \subseteq Set(a.cols)) THEN "except-drops-condition"
+         ELSE PreMatch(p, n + 2, Tail(Tail(inp)), Tail(out))
+    ELSE IF b.k = "Intersect" THEN
+         IF a.k # "Join" THEN "intersect-shape"
+         ELSE LET rest == Tail(inp) IN
+              IF b.sorted /\ rest # <<>> /\ IsGroupTake(Head(rest)) /\ (Tail(out) = <<>> \/ Head(Tail(out)).k \notin {"Distinct", "Filter"} \/ (Head(Tail(out)).k = "Filter" /\ Len(rest) >= 2 /\ rest[2].k = "Filter"))
+              THEN PreMatch(p, n + 2, Tail(rest), Tail(out))
+              ELSE PreMatch(p, n + 1, rest, Tail(out))
     ELSE IF IsGroupTake(a) THEN
          LET v == GroupTakeVerdict(p, NthNC(p, n + 1, 1), out)
              used == IF b.k = "Sort" /\ ~b.sup THEN 2 ELSE 1
